@@ -79,6 +79,31 @@ def verify_function(qualname, options=None, timeout_ms=10000, repo_root=None):
         return res
     opts = dict(c.options)
     opts.update(options)
+    if c.options.get("frame_scan") is not None:
+        # syntactic frame obligations (function outside the symbolic subset): one obligation per store rooted at the named object,
+        # plus one summarising obligation so that the count never drops to zero
+        from .framescan import scan
+        root, allowed = c.options["frame_scan"]
+        found = scan(info, root, allowed)
+        short = qualname.replace("uxarray.", "", 1)
+        names = {}
+        for kind, text, line, ok, slot in found:
+            base = f"{short}/frame_scan:{slot}"
+            k = names.get(base, 0)
+            names[base] = k + 1
+            res["obligations"].append({"name": base if k == 0 else f"{base}#{k}", "kind": "frame_scan", "status": "discharged" if ok else "failed",
+                                       "clause": f"stores into `{root}` are limited to {sorted(allowed)}: {text}", "loc": f"{res['file']}:{line}",
+                                       "backend": "frame-scan", "seconds": 0.0, "model": None, "reason": "decided from the AST", "path": None,
+                                       "concrete": None})
+        bad = [f for f in found if not f[3]]
+        res["obligations"].append({"name": f"{short}/frame_scan", "kind": "frame_scan", "status": "failed" if bad else "discharged",
+                                   "clause": f"{short} writes no state of `{root}` other than {sorted(allowed)} ({len(found)} stores inspected)",
+                                   "loc": f"{res['file']}:{res['line']}", "backend": "frame-scan", "seconds": 0.0, "model": None,
+                                   "reason": "decided from the AST", "path": None, "concrete": None})
+        res["paths"] = 1
+        res["trusted"] = ["frame-scan: stores through aliases of the object or inside callees are not seen (syntactic)"]
+        res["seconds"] = round(time.time() - t0, 3)
+        return res
     ctx = Ctx(repo, reg, options=opts)
     ex = Exec(ctx)
     try:
